@@ -25,6 +25,23 @@ TARGETS = [
     'ASAM::CMP::Encoder::buildSegmentationFlag',
 ]
 
+# view accessors of the typed payload classes (member functions: the buffer is the payload's own byte vector, variable 1 its size);
+# a returned pointer is reported as its offset into the payload, -1 for nullptr
+VIEW_TARGETS = [
+    'ASAM::CMP::LinPayload::getData',
+    'ASAM::CMP::CanPayloadBase::getData',
+    'ASAM::CMP::EthernetPayload::getData',
+    'ASAM::CMP::AnalogPayload::getSamplesCount',
+    'ASAM::CMP::AnalogPayload::getData',
+    'ASAM::CMP::InterfacePayload::getStreamIdsCount',
+    'ASAM::CMP::InterfacePayload::getStreamIds',
+    'ASAM::CMP::InterfacePayload::getVendorDataLength',
+    'ASAM::CMP::InterfacePayload::getVendorData',
+]
+
+THIS = ('THIS',)
+VEC = ('VEC',)
+
 BINOPS = {'+': 'OAdd', '-': 'OSub', '*': 'OMul', '/': 'ODiv', '%': 'ORem', '&': 'OAnd', '|': 'OOr', '^': 'OXor', '<<': 'OShl', '>>': 'OShr'}
 CMPOPS = {'<': 'CLt', '<=': 'CLe', '>': 'CGt', '>=': 'CGe', '==': 'CEq', '!=': 'CNe'}
 
@@ -58,6 +75,7 @@ def coq(e):
     if k == 'KLet': return '(KLet %d %s\n  %s)' % (e[1], coq(e[2]), coq(e[3]))
     if k == 'KCast': return '(KCast %d %s %s)' % (e[1], b(e[2]), coq(e[3]))
     if k == 'KBswap': return '(KBswap %d %s)' % (e[1], coq(e[2]))
+    if k == 'KRd': return '(KRd %d %s)' % (e[1], coq(e[2]))
     raise ValueError(k)
 
 class CodeSym:
@@ -142,7 +160,16 @@ class CodeSym:
         if k == 'CXXBoolLiteralExpr':
             return kconst(1 if n['value'] else 0)
         if k == 'CXXNullPtrLiteralExpr' or k == 'GNUNullExpr':
-            raise Untranslatable('null pointer value')
+            return Ptr(kconst(-1), 'uint8_t')
+        if k == 'CXXThisExpr':
+            if getattr(self, 'size_var', None) is None:
+                raise Untranslatable('this outside a payload member function')
+            return THIS
+        if k == 'MemberExpr':
+            base = self.ev(inner[0])
+            if base is THIS and n.get('name') == 'payloadData':
+                return VEC
+            raise Untranslatable('member ' + str(n.get('name')))
         if k == 'UnaryExprOrTypeTraitExpr':
             if n.get('name') != 'sizeof':
                 raise Untranslatable(n.get('name', 'trait'))
@@ -155,7 +182,13 @@ class CodeSym:
         if k in ('ImplicitCastExpr', 'CXXStaticCastExpr', 'CStyleCastExpr', 'CXXFunctionalCastExpr', 'CXXReinterpretCastExpr', 'CXXConstCastExpr'):
             ck = n.get('castKind'); sub = inner[0]
             v = self.ev(sub)
+            if v is THIS or v is VEC:
+                if ck in ('LValueToRValue', 'NoOp', 'UncheckedDerivedToBase', 'DerivedToBase'):
+                    return v
+                raise Untranslatable('cast of this')
             if isinstance(v, Ptr):
+                if ck == 'NullToPointer':
+                    return Ptr(kconst(-1), self.pointee(n))
                 if ck in ('LValueToRValue', 'NoOp', 'BitCast'):
                     return Ptr(v.off, self.pointee(n)) if self.is_ptr(n) else v
                 raise Untranslatable('pointer cast ' + str(ck))
@@ -206,9 +239,14 @@ class CodeSym:
             op = n['opcode']
             if op == '*':
                 p = self.ev(inner[0])
-                if not isinstance(p, Ptr) or self.sizeof_type(p.pointee) != 1:
+                if not isinstance(p, Ptr):
                     raise Untranslatable('dereference')
-                return K('KByte', p.off)
+                sz = self.sizeof_type(p.pointee)
+                if sz == 1:
+                    return K('KByte', p.off)
+                if sz in (2, 4, 8) and p.pointee.replace('const ', '').strip() in INT_TYPES and not INT_TYPES[p.pointee.replace('const ', '').strip()][1]:
+                    return K('KRd', sz, p.off)       # an unsigned integer read straight out of the byte buffer (little-endian host)
+                raise Untranslatable('dereference of ' + p.pointee)
             v = self.ev(inner[0])
             if isinstance(v, Ptr):
                 raise Untranslatable('unary ' + op + ' on a pointer')
@@ -243,6 +281,8 @@ class CodeSym:
             raise Untranslatable('binary ' + op)
         if k == 'ConditionalOperator':
             c = self.ev(inner[0]); a = self.ev(inner[1]); b = self.ev(inner[2])
+            if isinstance(a, Ptr) and isinstance(b, Ptr):
+                return Ptr(K('KIte', c, a.off, b.off), a.pointee if a.off != kconst(-1) else b.pointee)
             if isinstance(a, Ptr) or isinstance(b, Ptr):
                 raise Untranslatable('conditional pointer')
             return K('KIte', c, a, b)
@@ -251,6 +291,18 @@ class CodeSym:
             if me['kind'] != 'MemberExpr':
                 raise Untranslatable('indirect member call')
             obj = self.ev(me['inner'][0])
+            if obj is VEC:
+                if me.get('name') == 'data' and len(inner) == 1:
+                    return Ptr(kconst(0), 'uint8_t')
+                if me.get('name') == 'size' and len(inner) == 1:
+                    return K('KVar', self.size_var)
+                raise Untranslatable('vector member ' + str(me.get('name')))
+            if obj is THIS:
+                mg = self.W.decl_mangled_all.get(me.get('referencedMemberDecl'))
+                m = self.W.methods.get(mg)
+                if m is None:
+                    raise Untranslatable('callee without body: ' + str(me.get('name')))
+                return self.call_fd(m[2], self.W.tu_of[mg], inner[1:], me.get('name'))
             if not isinstance(obj, Ptr):
                 raise Untranslatable('member call on a non-pointer object')
             mg = self.W.decl_mangled_all.get(me.get('referencedMemberDecl'))
@@ -292,24 +344,37 @@ class CodeSym:
                 raise Untranslatable('call to ' + str(name))
         else:
             tu = self.tu
-        if self.depth > 5:
+        return self.call_fd(fd, tu, argnodes, name)
+
+    def call_fd(self, fd, tu, argnodes, name):
+        if self.depth > 6:
             raise Untranslatable('call depth')
         sub = CodeSym(self.W, tu, self.layout, self.depth + 1)
         sub.nvars = self.nvars; sub.accs = self.accs
+        sub.size_var = getattr(self, 'size_var', None)
         params = [c for c in fd['inner'] if c['kind'] == 'ParmVarDecl']
         binds = []
         for p, a in zip(params, argnodes):
             v = self.ev(a)
+            if v is THIS or v is VEC:
+                raise Untranslatable('object passed as an argument')
             if isinstance(v, Ptr):
-                sub.vars[p['id']] = ('ptr', Ptr(v.off, sub.pointee(p)))
+                # a pointer argument may be a computed offset: bind it so that it is evaluated once
+                i = self.fresh()
+                binds.append((i, v.off))
+                sub.vars[p['id']] = ('ptr', Ptr(K('KVar', i), sub.pointee(p)))
             else:
                 i = self.fresh(); w, sg = sub.ity(p)
                 sub.vars[p['id']] = ('int', i, (w, sg))
                 binds.append((i, K('KCast', w, sg, v)))
         body = [c for c in fd['inner'] if c['kind'] == 'CompoundStmt'][0]
+        sub.ret_ptr = fd['type']['qualType'].split('(')[0].rstrip().endswith('*')
         e = sub.stmts([body])
         for i, v in reversed(binds):
             e = K('KLet', i, v, e)
+        if sub.ret_ptr:
+            rt = fd['type']['qualType'].split('(')[0].rstrip()[:-1].replace('const ', '').strip()
+            return Ptr(e, rt)
         return e
 
     def ref_call(self, n):
@@ -384,7 +449,11 @@ class CodeSym:
                 raise Untranslatable('return without a value')
             v = self.ev(inner[0])
             if isinstance(v, Ptr):
-                raise Untranslatable('returns a pointer')
+                if not getattr(self, 'ret_ptr', False):
+                    raise Untranslatable('returns a pointer')
+                v = v.off
+            if v is THIS or v is VEC:
+                raise Untranslatable('returns an object')
             if getattr(self, 'ret_k', None):
                 return self.ret_k(v)
             return v
@@ -430,10 +499,27 @@ class CodeSym:
                     raise Untranslatable('declaration ' + str(d.get('kind')))
                 init = [c for c in d.get('inner', []) if 'type' in c or c.get('kind', '').endswith('Expr') or c.get('kind', '').endswith('Literal')]
                 if not init:
-                    raise Untranslatable('local without initialiser')
+                    # `T x; memcpy(&x, p, sizeof x);` - an unsigned integer read out of the byte buffer
+                    m = memcpy_into(rest[0] if rest else None, d['id'])
+                    ti = type_info(d.get('type', {}))
+                    if m is None or ti is None or ti[1] or len(inner) != 1:
+                        raise Untranslatable('local without initialiser')
+                    src = self.ev(m[0]); nbytes = self.ev(m[1])
+                    if not isinstance(src, Ptr) or nbytes != kconst(ti[0] // 8) or self.sizeof_type(src.pointee) != 1:
+                        raise Untranslatable('memcpy into a local from something else than the byte buffer')
+                    i = self.fresh()
+                    self.vars[d['id']] = ('int', i, ti)
+                    return K('KLet', i, K('KRd', ti[0] // 8, src.off), self.stmts(rest[1:]))
                 v = self.ev(init[-1])
+                if v is THIS or v is VEC:
+                    raise Untranslatable('local object')
                 if isinstance(v, Ptr):
-                    self.vars[d['id']] = ('ptr', Ptr(v.off, self.pointee(d)) if self.is_ptr(d) else v)
+                    if v.off[0] in ('KConst', 'KVar'):
+                        self.vars[d['id']] = ('ptr', Ptr(v.off, self.pointee(d)) if self.is_ptr(d) else v)
+                    else:
+                        i = self.fresh()
+                        binds.append((i, v.off))
+                        self.vars[d['id']] = ('ptr', Ptr(K('KVar', i), self.pointee(d) if self.is_ptr(d) else v.pointee))
                 else:
                     i = self.fresh(); w, sg = self.ity(d)
                     self.vars[d['id']] = ('int', i, (w, sg))
@@ -532,6 +618,31 @@ class CodeSym:
         marker = {'kind': '__unrolled__', 'seq': seq[1:], 'rest': rest}
         return self.stmts([h, marker])
 
+def memcpy_into(st, did):
+    """st is `memcpy(&x, src, n)` with x the local declared as did: returns (src node, n node)"""
+    if st is None:
+        return None
+    st = strip_expr(st)
+    if st.get('kind') != 'CallExpr':
+        return None
+    callee = st['inner'][0]
+    while callee.get('kind') == 'ImplicitCastExpr':
+        callee = callee['inner'][0]
+    if callee.get('referencedDecl', {}).get('name') != 'memcpy' or len(st['inner']) != 4:
+        return None
+    a0 = strip_expr(st['inner'][1])
+    while a0.get('kind') in ('CStyleCastExpr', 'CXXStaticCastExpr', 'CXXReinterpretCastExpr', 'ImplicitCastExpr'):
+        a0 = strip_expr(a0['inner'][0])
+    if a0.get('kind') != 'UnaryOperator' or a0.get('opcode') != '&':
+        return None
+    t = strip_expr(a0['inner'][0])
+    if t.get('kind') != 'DeclRefExpr' or t['referencedDecl']['id'] != did:
+        return None
+    src = st['inner'][2]
+    while src.get('kind') in ('ImplicitCastExpr', 'CStyleCastExpr', 'CXXStaticCastExpr', 'CXXReinterpretCastExpr') and src.get('castKind') in ('BitCast', 'NoOp') and 'void' in src.get('type', {}).get('qualType', ''):
+        src = src['inner'][0]
+    return src, st['inner'][3]
+
 def strip_expr(n):
     while n.get('kind') in ('ImplicitCastExpr', 'ParenExpr', 'ExprWithCleanups', 'MaterializeTemporaryExpr') and n.get('inner'):
         n = n['inner'][0]
@@ -550,7 +661,7 @@ def assigns(n, did):
             return True
     return any(assigns(c, did) for c in n.get('inner', []))
 
-def translate_function(W, layout, q):
+def translate_function(W, layout, q, view=False):
     cands = [(mg, m) for mg, m in W.methods.items() if m[0] + '::' + m[1] == q]
     if not cands:
         return None, 'function not found in the sources', None
@@ -560,6 +671,12 @@ def translate_function(W, layout, q):
     params = [c for c in node['inner'] if c['kind'] == 'ParmVarDecl']
     sig = []
     try:
+        if view:
+            cs.fresh(); cs.size_var = cs.fresh()
+            cs.ret_ptr = node['type']['qualType'].split('(')[0].rstrip().endswith('*')
+            sig = [('payloadData', 0), ('size', 64)]
+            if params:
+                raise Untranslatable('view accessor with parameters')
         for p in params:
             if cs.is_ptr(p):
                 cs.vars[p['id']] = ('ptr', Ptr(kconst(0), cs.pointee(p)))
@@ -583,8 +700,8 @@ def write_gencode(out, W, layout, reads):
          'From Coq Require Import ZArith List String.', 'Require Import CMP.Cir.', 'Import ListNotations.',
          'Local Open Scope Z_scope.', 'Local Open Scope string_scope.', '']
     done, lost, absent, used = [], [], [], set()
-    for q in TARGETS:
-        e, why, info = translate_function(W, layout, q)
+    for q in TARGETS + VIEW_TARGETS:
+        e, why, info = translate_function(W, layout, q, view=q in VIEW_TARGETS)
         ident = 'code_' + re.sub(r'[^A-Za-z0-9]+', '_', q.replace('ASAM::CMP::', ''))
         if e is None:
             # a function that no longer exists has nothing to be checked (absent); one that exists but leaves the translatable
